@@ -20,11 +20,13 @@ deriving Repr, DecidableEq, Inhabited
 
 /-- Python's `isinstance(e, cls)` for the harness's exception zoo:
     E1, E2 = `other 1`, `other 2` (Exception subclasses); BE = `other 3` (BaseException subclass);
-    E1s = `other 4` (a subclass of E1). -/
+    E1s = `other 4` (a subclass of E1); KeyboardInterrupt, SystemExit = `other 5`, `other 6` (BaseException). -/
 def ExcClass.isException : Exc → Bool
   | .genExit => false
   | .cancelled _ => false
   | .other 3 => false
+  | .other 5 => false
+  | .other 6 => false
   | .syncAbort => false
   | _ => true
 
